@@ -190,6 +190,10 @@ def analyse_one(prog, module, clsname, rep):
             if unknown:
                 rep.undecided("R-C16-a", w, cons, "storage comes from a callee outside the summary table: %s" % unknown)
                 continue
+            if shared_param and not paths and m.what.startswith("overwrite_input=") and all(str(r[-1]).endswith("[]") for r in shared_param):
+                # a subscripted operand: a boolean-mask selection is a private copy (free to overwrite), a slice is a view
+                rep.undecided("R-C16-a", w, cons, "the overwritten operand is a subscript of shared storage %s: selection (copy) or view?" % (sorted(shared_param)[0],))
+                continue
             if shared_param and not paths:
                 rep.violated("R-C16-a", w, cons, "a task writes %s, which every task shares (not a per-task block, not a named diagnostic)" % (sorted(shared_param)[0],),
                              witness={"statement": m.ev.src()[:100], "schedule": "two tasks interleave on this store"})
